@@ -406,20 +406,22 @@ func ipv4AddrsDecoder(r io.Reader, val interface{}, _ *[8]byte,
 		var (
 			numAddrs = int(l / ipv4AddrEncodedSize)
 			addrs    = make([]*net.TCPAddr, 0, numAddrs)
-			ip       [4]byte
 			port     [2]byte
 		)
 		for len(addrs) < numAddrs {
-			_, err := r.Read(ip[:])
+			// Each address needs its own backing array: the
+			// net.TCPAddr keeps a slice of it.
+			ip := make(net.IP, 4)
+			_, err := io.ReadFull(r, ip)
 			if err != nil {
 				return err
 			}
-			_, err = r.Read(port[:])
+			_, err = io.ReadFull(r, port[:])
 			if err != nil {
 				return err
 			}
 			addrs = append(addrs, &net.TCPAddr{
-				IP:   ip[:],
+				IP:   ip,
 				Port: int(binary.BigEndian.Uint16(port[:])),
 			})
 		}
@@ -486,20 +488,22 @@ func ipv6AddrsDecoder(r io.Reader, val interface{}, _ *[8]byte,
 		var (
 			numAddrs = int(l / ipv6AddrEncodedSize)
 			addrs    = make([]*net.TCPAddr, 0, numAddrs)
-			ip       [16]byte
 			port     [2]byte
 		)
 		for len(addrs) < numAddrs {
-			_, err := r.Read(ip[:])
+			// Each address needs its own backing array: the
+			// net.TCPAddr keeps a slice of it.
+			ip := make(net.IP, 16)
+			_, err := io.ReadFull(r, ip)
 			if err != nil {
 				return err
 			}
-			_, err = r.Read(port[:])
+			_, err = io.ReadFull(r, port[:])
 			if err != nil {
 				return err
 			}
 			addrs = append(addrs, &net.TCPAddr{
-				IP:   ip[:],
+				IP:   ip,
 				Port: int(binary.BigEndian.Uint16(port[:])),
 			})
 		}
